@@ -119,6 +119,9 @@ pub struct Sim {
     /// per node: added (mod 2^16) to the sequenceId of every Announce it transmits, as if its ports had
     /// been announcing for that long already
     pub announce_seq_offset: Vec<u16>,
+    /// per node: its Announces carry a PATH_TRACE TLV with this many entries (a parent at the end
+    /// of a long chain of boundary clocks)
+    pub announce_path_len: Vec<Option<usize>>,
     /// (follower, leader, ahead): the follower's Sync/Follow_Up sequence ids run in lockstep with
     /// the leader's (two masters that started together), `ahead` ids in front of the leader's last
     pub sync_seq_lockstep: Option<(usize, usize, u16)>,
@@ -151,6 +154,7 @@ impl Sim {
             one_step: vec![],
             announce_steps: vec![],
             announce_seq_offset: vec![],
+            announce_path_len: vec![],
             sync_seq_lockstep: None,
             last_sync_seq: vec![],
             sync_seq_delta: None,
@@ -269,6 +273,19 @@ impl Sim {
                         }
                         self.last_sync_seq[node] = Some(m.hdr.seq);
                     }
+                }
+            }
+        }
+        if let Some(Some(n)) = self.announce_path_len.get(node).copied() {
+            if let Ok(mut m) = Msg::decode(&data) {
+                if m.hdr.msg_type == crate::refcodec::T_ANNOUNCE {
+                    let mut v = Vec::with_capacity(8 * n);
+                    for i in 0..n {
+                        v.extend_from_slice(&[0xa0, 0, 0, 0xee, (i >> 8) as u8, i as u8, 1, node as u8]);
+                    }
+                    m.tlvs = vec![crate::refcodec::Tlv::new(crate::refcodec::TLV_PATH_TRACE, v)];
+                    m.hdr.length = None;
+                    data = m.encode();
                 }
             }
         }
